@@ -4,4 +4,9 @@ go 1.22
 
 require github.com/trajectoryjp/spatial_id_go/v4 v4.0.0
 
+require (
+	github.com/wroge/wgs84 v1.1.7 // indirect
+	gonum.org/v1/gonum v0.15.1 // indirect
+)
+
 replace github.com/trajectoryjp/spatial_id_go/v4 => /repo
